@@ -230,6 +230,7 @@ type Violation struct {
 	Findings []string          `json:"findings,omitempty"`
 	Choices  map[string]int    `json:"choices,omitempty"`
 	Schedule []string          `json:"schedule,omitempty"`
+	Ungated  int               `json:"ungated,omitempty"`
 	PC       []string          `json:"path_condition,omitempty"`
 	Cond     string            `json:"failed_condition,omitempty"`
 	// Alternates are further executions failing the same assertion under a different schedule.
